@@ -334,10 +334,76 @@ def guard_chain(fn, site, parents, lets):
     return chain
 
 
+def _helper_components(fn):
+    """{helper name: {tuple position or field name: text}} for the argument-less same-impl helpers whose result is a tuple
+    or struct literal: each component as text with the helper's own single-assignment locals inlined - so that
+    `let (a, b) = self.h();` and `let S { x: a, y: b } = self.h();` / `self.h().x` all read as what `h` computes"""
+    out = {}
+    for g in A.functions(fn.file):
+        if g.block is None or g is fn or g.self_ty != fn.self_ty or not g.block["stmts"]:
+            continue
+        if any(A.kind(p_) == "FnArg::Typed" for p_ in g.node["sig"]["inputs"]):
+            continue
+        last = g.block["stmts"][-1]
+        e = A.peel(last["0"]) if A.kind(last) == "Stmt::Expr" else None
+        comps = {}
+        if e is not None and A.kind(e) == "Expr::Tuple":
+            comps = {str(i): x for i, x in enumerate(e["elems"])}
+        elif e is not None and A.kind(e) == "Expr::Struct":
+            comps = {fv["member"]["0"]["sym"]: fv["expr"] for fv in e["fields"] if A.kind(fv["member"]) == "Member::Named"}
+        if len(comps) < 2:
+            continue
+        gl = _lets(g)
+        out[g.name] = {k_: "(" + _inline(_r(x), gl) + ")" for k_, x in comps.items()}
+    return out
+
+
+def _projection_lets(fn):
+    """text bindings for names destructured from such a helper's result, and a rewriter for `self.h().<component>`"""
+    comps = _helper_components(fn)
+    texts = {}
+    if not comps:
+        return texts, (lambda t: t)
+    for st, _ in A.find(fn.block, "Stmt::Local"):
+        init = st.get("init")
+        if not init:
+            continue
+        m = re.fullmatch(r"self\.(\w+)\(\)", A.render(init["expr"]))
+        if not m or m.group(1) not in comps:
+            continue
+        c = comps[m.group(1)]
+        pat = st["pat"]
+        if A.kind(pat) == "Pat::Tuple":
+            for i, el in enumerate(pat["elems"]):
+                ids = A.pat_idents(el)
+                if len(ids) == 1 and str(i) in c:
+                    texts[ids[0]] = c[str(i)]
+        elif A.kind(pat) == "Pat::Struct":
+            for fp in pat["fields"]:
+                mn = fp["member"]["0"]["sym"] if A.kind(fp["member"]) == "Member::Named" else None
+                ids = A.pat_idents(fp["pat"])
+                if mn in c and len(ids) == 1:
+                    texts[ids[0]] = c[mn]
+
+    def rewrite(t):
+        for h, c in comps.items():
+            for k_, v in c.items():
+                t = re.sub(r"self\.%s\(\)\.%s\b(?!\()" % (re.escape(h), re.escape(k_)), lambda _m: v, t)
+        return t
+
+    return texts, rewrite
+
+
 def site_formula(fn, node, parents):
     """the condition under which `node` is reached inside `fn`, as a guardf formula (aliases resolved, names `$`)"""
     lets = _lets(fn)
-    return GF.alpha_formula(GF.guard_formula(fn, node, parents, {n_: _r(e_) for n_, e_ in lets.items()}, lets))
+    ptexts, rewrite = _projection_lets(fn)
+    lt = {n_: _r(e_) for n_, e_ in lets.items()}
+    lt.update(ptexts)
+    f = GF.guard_formula(fn, node, parents, lt, lets)
+    if ptexts or rewrite:
+        f = GF.map_text(f, rewrite)
+    return GF.alpha_formula(f)
 
 
 def collect(ctx):
@@ -349,6 +415,7 @@ def collect(ctx):
             if fn.block is None:
                 continue
             lets = None
+            proj = None
             per = {}
             for x, ps in A.walk(fn.block):
                 k = A.kind(x)
@@ -378,7 +445,11 @@ def collect(ctx):
                     lets = _lets(fn)
                 chain = guard_chain(fn, x, ps, lets)
                 try:
-                    formula = GF.guard_formula(fn, x, ps, {n_: _r(e_) for n_, e_ in lets.items()}, lets)
+                    if proj is None:
+                        proj = _projection_lets(fn)
+                    lt_ = {n_: _r(e_) for n_, e_ in lets.items()}
+                    lt_.update(proj[0])
+                    formula = GF.map_text(GF.guard_formula(fn, x, ps, lt_, lets), proj[1])
                 except Exception as ex_:  # the formula is an aid for matching; the textual chain stays authoritative
                     formula = ("atom", f"<unreadable: {type(ex_).__name__}>")
                 raised = True
